@@ -97,8 +97,10 @@ func (f *Formatter) Format(args []string) (*FormatterResult, error) {
 
 		if f.Opts.InPlace {
 			if fileResult.Changed {
-				// G306: Use 0600 for better security (owner read/write only)
-				err = os.WriteFile(file, []byte(fileResult.Formatted), 0600)
+				// Replace the file atomically (temp file + rename) so that a failed or
+				// interrupted write never leaves a truncated file behind.
+				// G306: Use 0600 for files that do not exist yet (owner read/write only)
+				err = replaceFileAtomic(file, []byte(fileResult.Formatted), 0600)
 				if err != nil {
 					fmt.Fprintf(f.Err, "❌ Failed to write %s: %v\n", file, err)
 					result.FailedFiles++
